@@ -448,6 +448,10 @@ def get_odesys(
                 else:
                     _preferred = list(preferred)
                 A = be.Matrix(compo_vecs)
+                if hasattr(be, "nsimplify"):
+                    # decimal compositions: row reduce the rationals as written
+                    # (float residues of 1e-17 would be taken for pivots)
+                    A = A.applyfunc(lambda e: be.nsimplify(e, rational=True))
                 rA, pivots = A.rref()
 
                 analytic_exprs = OrderedDict()
